@@ -4,7 +4,8 @@
   `SELECT … FROM t1 [LEFT | FULL] JOIN t2 ON … WHERE …` and evaluates to the frame of the reference semantics:
   matching pairs, unmatched rows padded with nulls, nothing matched through a null key.
 -/
-import Pdt.Props.C01Frag
+import Pdt.Props.C01Gen
+import Pdt.Props.C01Window
 
 namespace Pdt.C06
 open Pdt Pdt.Spec Pdt.Sql Pdt.C01
@@ -240,5 +241,104 @@ example : ∃ sc, JFrag
       ["w"] [.fn "add" [.col 11 .int64 .elementWise, .lit (.int 1) .int64] none []] [30] [(.int64, .elementWise)]) sc := by
   refine ⟨_, JFrag.mutate 5 [("w", 30, _)] _ (JFrag.filter 4 _ (JFrag.join 3 1 2 "t1" "t2" _ _ .sqlite .sqlite _ .left ?_ ?_ ?_) ?_ ?_) ?_ ?_ ?_ ?_⟩
   all_goals first | decide +kernel | (intro t ht; simp at ht; subst ht; decide)
+
+
+/-! ### joins below summarize / window functions -/
+
+theorem join_source_compile (i j1 j2 : NodeId) (n1 n2 : String) (cols1 cols2 : List (String × Uid × Dtype)) (be1 be2 : Backend)
+    (on : Expr) (how : How) (hnd : ((cols1.map (·.2.1)) ++ (cols2.map (·.2.1))).Nodup) (needed : Needed) :
+    ∃ n', compile (.join i (.source j1 n1 cols1 be1) (.source j2 n2 cols2 be2) on how) needed =
+      .ok (⟨.join (.table n1 (cols1.map (·.2.1))) (.table n2 (cols2.map (·.2.1))) (Sql.inline (srcDefs cols1 ++ srcDefs cols2) on) how,
+           { select := cols1.map (·.2.1) ++ cols2.map (·.2.1), partitionBy := [] }, srcDefs cols1 ++ srcDefs cols2⟩, n') := by
+  have hmerge := srcDefs_merge cols1 cols2 hnd
+  unfold srcDefs at hmerge
+  refine ⟨(uidsOfVerb (.join i (.source j1 n1 cols1 be1) (.source j2 n2 cols2 be2) on how)).foldl Needed.decr
+            ((uidsOfVerb (.join i (.source j1 n1 cols1 be1) (.source j2 n2 cols2 be2) on how)).foldl Needed.incr needed), ?_⟩
+  cases how <;> simp [compile, bind, Except.bind, pure, Except.pure, hmerge, srcDefs]
+
+theorem jfrag_partitionBy {ast : Ast} {sc : List Uid} (h : JFrag ast sc) :
+    ∀ needed r n', compile ast needed = .ok (r, n') → r.query.partitionBy = [] := by
+  induction h with
+  | join i j1 j2 n1 n2 cols1 cols2 be1 be2 on how hnd hon hou =>
+    intro needed r n' hc
+    obtain ⟨n2', hc2⟩ := join_source_compile i j1 j2 n1 n2 cols1 cols2 be1 be2 on how hnd needed
+    rw [hc2] at hc
+    simp only [Except.ok.injEq, Prod.mk.injEq] at hc
+    obtain ⟨rfl, _⟩ := hc
+    rfl
+  | select i cols _ hsel ih =>
+    intro needed r n' hc
+    simp only [compile, bind, Except.bind] at hc
+    split at hc
+    · cases hc
+    · rename_i p hcc
+      obtain ⟨r0, n0⟩ := p
+      simp only [pure, Except.pure, Except.ok.injEq, Prod.mk.injEq] at hc
+      obtain ⟨rfl, _⟩ := hc
+      exact ih _ r0 n0 hcc
+  | rename i m _ ih =>
+    intro needed r n' hc
+    simp only [compile, bind, Except.bind] at hc
+    split at hc
+    · cases hc
+    · rename_i p hcc
+      obtain ⟨r0, n0⟩ := p
+      simp only [pure, Except.pure, Except.ok.injEq, Prod.mk.injEq] at hc
+      obtain ⟨rfl, _⟩ := hc
+      exact ih _ r0 n0 hcc
+  | filter i preds _ hp hu ih =>
+    intro needed r n' hc
+    simp only [compile, bind, Except.bind] at hc
+    split at hc
+    · cases hc
+    · rename_i p hcc
+      obtain ⟨r0, n0⟩ := p
+      simp only [pure, Except.pure, Except.ok.injEq, Prod.mk.injEq] at hc
+      obtain ⟨rfl, _⟩ := hc
+      have := ih _ r0 n0 hcc
+      split <;> simpa using this
+  | mutate i L metas _ hv hu hfresh hnd ih =>
+    intro needed r n' hc
+    simp only [compile, bind, Except.bind] at hc
+    split at hc
+    · cases hc
+    · rename_i p hcc
+      obtain ⟨r0, n0⟩ := p
+      simp only [pure, Except.pure, Except.ok.injEq, Prod.mk.injEq] at hc
+      obtain ⟨rfl, _⟩ := hc
+      exact ih _ r0 n0 hcc
+
+theorem jfrag_group {ast : Ast} {sc : List Uid} (h : JFrag ast sc) (db : DB) : (Spec.run db ast).group = [] := by
+  induction h with
+  | join i j1 j2 n1 n2 cols1 cols2 be1 be2 on how hnd hon hou => cases how <;> simp [Spec.run]
+  | select i cols _ hsel ih => simpa [Spec.run] using ih
+  | rename i m _ ih => simpa [Spec.run] using ih
+  | filter i preds _ hp hu ih => simpa [Spec.run] using ih
+  | mutate i L metas _ hv hu hfresh hnd ih => simpa [Spec.run] using ih
+
+
+/-- a join of two source tables followed by row-level verbs is a base for the summarize / window refinements of C01 -/
+theorem JFrag.base {c : Ast} {sc : List Uid} (h : JFrag c sc) : Base c sc :=
+  ⟨fun db needed => jfrag_refines h db needed, jfrag_partitionBy h, fun db => jfrag_group h db⟩
+
+/-- `t1 JOIN t2 … >> group_by(k…) >> summarize(…)`: one `SELECT k…, agg… FROM t1 JOIN t2 ON … WHERE … GROUP BY k…`,
+    equal to the reference semantics -/
+theorem sql_refines_spec_join_grouped {c : Ast} {sc : List Uid} (h : JFrag c sc) (db : DB) (j i : NodeId)
+    (K : List (Uid × ColMeta)) (hK : K ≠ []) (hKsc : ∀ cu ∈ K, cu.1 ∈ sc) (hKnc : ∀ cu ∈ K, cu.2.dtype.isConst = false)
+    (hKnd : (K.map (·.1)).Nodup) (hKvis : ∀ cu ∈ K, ∃ e ∈ (Spec.run db c).visible, e.2 = cu.1)
+    (L : List (String × Uid × Expr)) (metas : List (Dtype × Ftype))
+    (hv : ∀ t ∈ L, ∀ u ∈ t.2.2.uids, u ∈ sc) (hfresh : ∀ t ∈ L, t.2.1 ∉ sc) (hnd : (L.map (·.2.1)).Nodup) (needed : Needed) :
+    ∃ r n', compile (.summarize i (.groupBy j c K false) (L.map (·.1)) (L.map (·.2.2)) (L.map (·.2.1)) metas) needed = .ok (r, n') ∧
+      Sql.run db r = (Spec.run db (.summarize i (.groupBy j c K false) (L.map (·.1)) (L.map (·.2.2)) (L.map (·.2.1)) metas)).frame :=
+  sql_refines_spec_grouped_gen h.base db j i K hK hKsc hKnc hKnd hKvis L metas hv hfresh hnd needed
+
+/-- `t1 JOIN t2 … >> mutate(<window functions>)` -/
+theorem sql_refines_spec_join_window {c : Ast} {sc : List Uid} (h : JFrag c sc) (db : DB) (i : NodeId)
+    (L : List (String × Uid × Expr)) (metas : List (Dtype × Ftype))
+    (hv : ∀ t ∈ L, ∀ u ∈ t.2.2.uids, u ∈ sc) (hna : ∀ t ∈ L, isAggQuery.aggNodes t.2.2 = false)
+    (hfresh : ∀ t ∈ L, t.2.1 ∉ sc) (hnd : (L.map (·.2.1)).Nodup) (needed : Needed) :
+    ∃ r n', compile (.mutate i c (L.map (·.1)) (L.map (·.2.2)) (L.map (·.2.1)) metas) needed = .ok (r, n') ∧
+      Sql.run db r = (Spec.run db (.mutate i c (L.map (·.1)) (L.map (·.2.2)) (L.map (·.2.1)) metas)).frame :=
+  sql_refines_spec_mutate_any h.base db i L metas hv hna hfresh hnd needed
 
 end Pdt.C06
